@@ -29,7 +29,9 @@ Inductive mcase :=
 | CMinMax (a b : N) (gomin gomax : N)
 | CMerkle (leaf : bytes) (branch : list bytes) (depth index : N) (root : bytes) (go : gores bool)
 | CSha (msg : bytes) (go : bytes)
-| CXor (a b : bytes) (go : bytes).
+| CXor (a b : bytes) (go : bytes)
+(* IntegerSquareRootPrysm: float64 estimate, NOT modelled (no Impl side); judged against the floor-sqrt Spec only *)
+| CIsqrtPrysm (n : N) (go : N).
 
 (* impl_ok: Go agrees with the implementation model. *)
 Definition impl_ok (c : mcase) : bool :=
@@ -50,6 +52,7 @@ Definition impl_ok (c : mcase) : bool :=
   | CMerkle leaf br d i root go => agree Bool.eqb (verify_merkle_branch sha256 sha_cat bytes_eqb leaf br d i root) go
   | CSha msg go => bytes_eqb (sha256 msg) go
   | CXor a b go => bytes_eqb (xor_bytes a b) go
+  | CIsqrtPrysm _ _ => true
   end.
 
 Definition is_pow2_spec (n : N) : bool := (0 <? n) && (2 ^ N.log2 n =? n).
@@ -79,6 +82,7 @@ Definition spec_ok (c : mcase) : bool :=
       else true
   | CSha msg go => bytes_eqb (sha256 msg) go
   | CXor a b go => Nat.eqb (length go) (length a) && forallb (fun i => N.lxor (nth i a 0) (nth i b 0) =? nth i go 0) (seq 0 (length a))
+  | CIsqrtPrysm n go => (go * go <=? n) && (n <? (go + 1) * (go + 1))
   end.
 
 Fixpoint mism (i : N) (cs : list mcase) : list (N * N) :=
